@@ -132,6 +132,7 @@ func SpecStream(i int) byte { panic("abstract spec function") }
 //@   requires nonnil: d != nil && d.r != nil
 //@   requires depth: depth >= 0
 //@   modifies d.offset, pos, unread
+//@   ensures every_announced_element_is_decoded [local]: result1 == nil && result0 != nil ==> len(result0) == n
 //@   ensures offset: result1 == nil ==> d.offset - old(d.offset) == pos - old(pos)
 //@   ensures no_rewind: result1 == nil ==> pos >= old(pos)
 //@   ensures unread_same: unread == old(unread)
